@@ -24,6 +24,11 @@ THEOREMS = [
     "RefineVolFront.spec_mc_leave", "RefineVolFront.mc_only_refines", "RefineVolFront.mc_only_empty",
     "C14.get_volume_eq_model", "C14.get_volume_every_tree", "C14.get_volume_level1_every_tree", "C14.get_volume_level2_every_tree",
     "C14.get_volume_level3_every_tree", "C14.get_volume_names", "C14.get_volume_level10",
+    # the dispatch layer of utils/volumetric_object.py (which composite is built, inclusion–exclusion at the union nodes, closed form vs Monte
+    # Carlo at the sphere-frustum intersection, the get_volume cache)
+    "RefineVolFront.class_facts", "RefineVolFront.sdf_ops_eq", "RefineVolFront.sdf_union_foreign", "RefineVolFront.sphere_union_eq",
+    "RefineVolFront.sphere_intersect_eq", "RefineVolFront.frustum_ops_eq", "RefineVolFront.union_get_volume_eq", "RefineVolFront.sfi_get_volume_eq",
+    "RefineVolFront.obj_get_volume_eq", "RefineVolFront.leave_intersection_closed_form",
     "C14.chain_union", "C14.chain_hyps_of_pairwise", "C14.sum_chainRose", "C14.chain_volume_is_union", "C14.two_arm_volume_is_union", "C14.lens_inside_frustum",
 ]
 TRUSTED = ["translator (Gen/VolumeTerms.lean: the per-node inclusion–exclusion terms and their accuracy levels, regenerated from analysis/volume.py)",
